@@ -261,7 +261,7 @@ Bd(media, bi, req) == [media |-> media, schema |-> BodyPool[bi], required |-> re
 MJson == "application/json"
 MText == "text/plain"
 (* parameter / body sets are written as index tuples: <<>>, <<req, leaf>> or <<req, leaf, leaf2>> (second one optional) *)
-LeafIdx(loc) == IF Rich THEN (IF loc = "query" THEN (1..16) \cup {18, 19, 20} ELSE {1, 2, 3, 4, 5, 6, 9, 12, 13, 14, 15, 18, 19}) ELSE (IF loc = "query" THEN {1, 2, 3, 4, 5, 6, 10, 11, 13, 14, 18, 20} ELSE {1, 2, 5, 6, 13, 18})
+LeafIdx(loc) == IF Rich THEN (IF loc = "query" THEN (1..16) \cup {18, 19, 20} ELSE {1, 2, 3, 4, 5, 6, 9, 12, 13, 14, 15, 18, 19}) ELSE (IF loc = "query" THEN {1, 2, 3, 4, 5, 6, 10, 11, 13, 14, 18, 20} ELSE {1, 2, 5, 6, 13})
 QueryIdx == {<<0, 0, 0>>} \cup {<<r, a, 0>> : r \in {1, 2}, a \in LeafIdx("query")}
             \cup {<<r, a, b>> : r \in {1, 2}, a \in (IF Rich THEN LeafIdx("query") ELSE {1, 2, 5, 6}), b \in {1, 2, 6}}
 PathIdx == {<<0, 0, 0>>} \cup {<<2, a, 0>> : a \in LeafIdx("path")} \cup {<<2, a, b>> : a \in {1, 6}, b \in {2, 5}}
@@ -277,7 +277,8 @@ MkBodies(d, x) == IF x[1] = 0 THEN <<>>
                   ELSE IF x[3] = 0 THEN <<Bd(MJson, x[2], x[1] = 2)>>
                   ELSE <<Bd(MJson, x[2], TRUE), Bd(MText, IF d = "2.0" THEN x[2] ELSE x[3], TRUE)>>      \* 2.0: one schema, two `consumes`
 (* the two string restrictions are CROSSED: allow_x00 x codec (utf-8 = default, ascii, latin-1, none = no codec) *)
-Cfgs == {[allow_x00 |-> x, codec |-> c, security |-> s] : x \in BOOLEAN, c \in {"utf-8", "ascii", "latin-1", "none"}, s \in BOOLEAN}
+Cfgs == {cf \in {[allow_x00 |-> x, codec |-> c, security |-> s] : x \in BOOLEAN, c \in {"utf-8", "ascii", "latin-1", "none"}, s \in BOOLEAN} :
+           cf.security => cf.codec = "utf-8"}          \* security parameters are orthogonal to the string restrictions
 (* the Path Item the operation (always POST) lives in: written inline or behind a local $ref, alone or next to other documented methods *)
 ItemInline == [ref |-> FALSE, also |-> <<>>]
 Items == {[ref |-> r, also |-> a] : r \in BOOLEAN, a \in {<<>>, <<"get">>, <<"get", "put">>}}
